@@ -326,7 +326,7 @@ func (l *BlockchainRpcTxWatcher) observationLoop(
 			}
 
 			// Check if we can find the tx
-			rawTx, firstSeen, err := l.observer.IsTxInMempoolOrRange(
+			rawTx, firstSeen, tip, err := l.observer.IsTxInMempoolOrRange(
 				txId, startingHeight, vout)
 			if errors.Is(err, ErrNotFound) {
 				// Tx was not found from the "Starting Blockheight" until now.
@@ -348,15 +348,23 @@ func (l *BlockchainRpcTxWatcher) observationLoop(
 			}
 
 			// Check that the amount of confirmation matches with what we expect
-			// First check that we are in a safe range.
-			if firstSeen > startingHeight+safetyLimit {
+			// First check that we are in a safe range. The lookup above is
+			// evaluated at the chain tip it fetched itself. This tip can be
+			// ahead of the block height we got notified about (the
+			// notification was queued while new blocks arrived), so it is
+			// the tip that has to be below the safety limit.
+			if tip >= startingHeight+safetyLimit ||
+				firstSeen > startingHeight+safetyLimit {
 				l.callbackAndLog(swapId, "", fmt.Errorf("exceeded csv limit"))
 				return
 			}
 
 			// Now check if we got enough confirmations. We use first seen - 1
-			// as this is the block the tx was confirmed in the first time.
-			if current-(firstSeen-1) >= l.requiredConfs {
+			// as this is the block the tx was confirmed in the first time. The
+			// confirmations have to be counted from the tip that first seen
+			// was derived from. Counting from the notified block height would
+			// underflow if the notification is older than this tip.
+			if tip-(firstSeen-1) >= l.requiredConfs {
 				// We finally made it, enough confirmations and below the safety
 				// limit!
 				l.callbackAndLog(swapId, rawTx, nil)
